@@ -72,7 +72,34 @@ def run_case(case):
         if rng.random() < 0.3:
             rng.shuffle(keys)
             ranks = {k: ranks[k] for k in keys}      # dict order is presentation
-        o = PreOCF.init_custom(dict(ranks), None, list(sig))
+        grown = False
+        if rng.random() < 0.15 and n >= 2:
+            # the explicit signature must win over the signature of a belief base passed along
+            other = list(sig)
+            rng.shuffle(other)
+            if rng.random() < 0.5:
+                other = other[:-1]
+            bbx = impl.mk_bb(other, [(fml.V(other[0]), fml.TOP)])
+            o = PreOCF.init_custom(dict(ranks), bbx, list(sig))
+            bump('custom_with_belief_base_and_explicit_signature')
+        elif rng.random() < 0.12 and n >= 2:
+            # a ranking that is filled in later: formulas are asked while some worlds are still missing, then
+            # the remaining worlds are added in place and the same formulas are asked again
+            keys_now = rng.sample(list(ranks), max(1, len(ranks) // 2))
+            o = PreOCF.init_custom({k: ranks[k] for k in keys_now}, None, list(sig))
+            for _ in range(3):
+                f0 = fml.rand_formula(rng, sig, rng.randint(0, 2), 0.0)
+                try:
+                    o.formula_rank(fml.to_pysmt(f0))
+                    o.conditional_acceptance(impl.mk_cond(f0, fml.rand_formula(rng, sig, 1, 0.0)))
+                except Exception:
+                    pass
+            for k in ranks:
+                o.ranks[k] = ranks[k]
+            grown = True
+            bump('rankings_completed_in_place')
+        else:
+            o = PreOCF.init_custom(dict(ranks), None, list(sig))
         desc.update(signature=sig, ranks=ranks if n <= 3 else '%d worlds, shape %s' % (1 << n, shape))
     else:
         for _ in range(30):
